@@ -403,7 +403,12 @@ def check(ctx):
         return [] if o == want else ["front server runs with %s, configured %s" % (o, want)]
     d.check(srv_eps, oracle=srv_oracle, label="server-wiring")
     # accepted and started means serving: one request through the started handler, per identifier-header spelling
-    d.check_oracle_only(serve_episodes(ctx), serve_oracle, "serve")
+    se = serve_episodes(ctx)
+    d.check_oracle_only(se, serve_oracle, "serve")
+    ctx.cov["load_start_and_serve_episodes"] = len(se)
+    ctx.cov["load_start_and_serve_rule"] = ("cfgserve: the file goes through LoadConfig, NewLoadBalancer, buildHandler, createHTTPServer, setupMetricsServer and "
+                                            "setupAdminAPIServer as in main(), then one GET through the started handler (and the metrics / admin endpoints): "
+                                            "%d identifier-header spellings (legal tokens and names that cannot be sent) x feature x on/off, %d metrics paths x admin on/off" % (len(HDR_LEGAL) + len(HDR_ILLEGAL), 7))
     from . import c10
     d.check([["startup debug"], ["startup info"], ["startup -"], ["startup warn"], ["startup error"]], oracle=c10.startup_oracle, label="startup")
     # what LoadConfig returns is what the file says (values, order, entries, files of any length)
